@@ -8,7 +8,7 @@ are replaced by the helper's body when the callee resolves to exactly one functi
 same class via self./cls./ClassName., a nested function, a module-level function) and its desugared body is *return-simple*:
 every `return` is the last statement of the body or of an if/else arm that ends the function (no return inside a loop, try
 or with).  Parameters are substituted by the argument expressions (arguments that are not plain names, attributes or
-constants are first bound to fresh locals), callee locals are renamed `<callee>$<name>`.  Everything else is left as a call.
+constants are first bound to fresh locals), callee locals are renamed `<callee>__<name>_<n>`.  Everything else is left as a call.
 
 Properties read in expression position (`self.p`) are not inlined; rules that need them use `walk_expanded`, which yields the
 nodes of the function and of everything reachable through such calls and property reads (bounded depth), for "somewhere in
@@ -181,7 +181,7 @@ def _callee_body(prog, callee, skip_self, call, counter, self_expr):
         if isinstance(v, (ast.Name, ast.Constant)) or (isinstance(v, ast.Attribute) and dotted(v)):
             mapping[p] = v
         else:
-            tmp = "%s$%s%d" % (node.name, p, counter[0])
+            tmp = "%s__%s_%d" % (node.name, p, counter[0])
             pre.append(_loc(ast.Assign(targets=[ast.Name(id=tmp, ctx=ast.Store())], value=v, type_comment=None), call))
             mapping[p] = ast.Name(id=tmp, ctx=ast.Load())
     # locals assigned in the callee get fresh names
@@ -189,11 +189,11 @@ def _callee_body(prog, callee, skip_self, call, counter, self_expr):
     for n in ast.walk(ast.Module(body=body, type_ignores=[])):
         if isinstance(n, ast.Name) and isinstance(n.ctx, ast.Store):
             assigned.add(n.id)
-    rename = {n: "%s$%s%d" % (node.name, n, counter[0]) for n in assigned if n not in mapping}
+    rename = {n: "%s__%s_%d" % (node.name, n, counter[0]) for n in assigned if n not in mapping}
     # a parameter that is re-assigned in the callee must become a local too
     for p in list(mapping):
         if p in assigned:
-            tmp = "%s$%s%d" % (node.name, p, counter[0])
+            tmp = "%s__%s_%d" % (node.name, p, counter[0])
             pre.append(_loc(ast.Assign(targets=[ast.Name(id=tmp, ctx=ast.Store())], value=copy.deepcopy(mapping[p]), type_comment=None), call))
             rename[p] = tmp
             del mapping[p]
@@ -380,7 +380,11 @@ def expand(prog, f, depth=2, local_only=False, skip_names=()):
                 if r is not None:
                     callee, skip = r
                     cnode = callee.node if isinstance(callee, FuncInfo) else callee
-                    if cnode is not f.node and cnode.name not in skip_names and not any(isinstance(x, (ast.Yield, ast.YieldFrom)) for x in ast.walk(cnode)) \
+                    is_gen = any(isinstance(x, (ast.Yield, ast.YieldFrom)) for x in ast.walk(cnode))
+                    # `return gen_helper(...)`: the caller hands out the helper's generator; read as the generator itself
+                    gen_ok = is_gen and kind == "return" and all(
+                        x.value is None for x in ast.walk(cnode) if isinstance(x, ast.Return))
+                    if cnode is not f.node and cnode.name not in skip_names and (not is_gen or gen_ok) \
                             and not (local_only and isinstance(callee, FuncInfo) and callee.module is not f.module):
                         self_expr = copy.deepcopy(call.func.value) if isinstance(call.func, ast.Attribute) else None
                         body = _callee_body(prog, callee, skip, call, counter, self_expr)
@@ -472,7 +476,7 @@ def _hoist_helper_calls(prog, owner, stmts, local_defs, counter, local_only, top
                 if isinstance(e.func, ast.Attribute):
                     e.func.value = strict(e.func.value, False)
                 if not top_level and wanted(e):
-                    tmp = "hoist$%d" % counter[0]
+                    tmp = "hoist__%d" % counter[0]
                     counter[0] += 1
                     pre.append(_loc(ast.Assign(targets=[ast.Name(id=tmp, ctx=ast.Store())], value=e, type_comment=None), st))
                     return _loc(ast.Name(id=tmp, ctx=ast.Load()), e)
